@@ -25,7 +25,7 @@ import (
 )
 
 var staticTypes = map[string]bool{"connection": true, "packageParse": true, "packageComplete": true,
-	"sessionManager": true, "session": true}
+	"sessionManager": true, "session": true, "defaultTerminalEvent": true}
 
 type site struct {
 	Func, Type, Field, Role string
@@ -536,4 +536,61 @@ func attachShape(dir string) (ngo, nchan, nsync int, err error) {
 		})
 	}
 	return ngo, nchan, nsync, nil
+}
+
+// defaultEventerFresh: does the DEFAULT CustomTerminalEventerFunc of newOptions hand every connection its own
+// eventer object?  "true": every return of the function literal stored under that key allocates (&T{...} or
+// new(T)); "false": some return yields something that exists before the call (a captured variable ...);
+// "" : the shape was not found (no such key with a function literal in newOptions).
+func defaultEventerFresh(serviceDir string) string {
+	fset := token.NewFileSet()
+	f, err := parser.ParseFile(fset, filepath.Join(serviceDir, "option.go"), nil, 0)
+	if err != nil {
+		return ""
+	}
+	res := ""
+	ast.Inspect(f, func(n ast.Node) bool {
+		kv, ok := n.(*ast.KeyValueExpr)
+		if !ok {
+			return true
+		}
+		id, ok := kv.Key.(*ast.Ident)
+		fl, ok2 := kv.Value.(*ast.FuncLit)
+		if !ok || !ok2 || id.Name != "CustomTerminalEventerFunc" {
+			return true
+		}
+		res = "true"
+		nret := 0
+		ast.Inspect(fl.Body, func(m ast.Node) bool {
+			if _, inner := m.(*ast.FuncLit); inner {
+				return false
+			}
+			r, ok := m.(*ast.ReturnStmt)
+			if !ok {
+				return true
+			}
+			nret++
+			for _, e := range r.Results {
+				fresh := false
+				switch x := e.(type) {
+				case *ast.UnaryExpr:
+					_, isLit := x.X.(*ast.CompositeLit)
+					fresh = x.Op == token.AND && isLit
+				case *ast.CallExpr:
+					if fid, ok := x.Fun.(*ast.Ident); ok && fid.Name == "new" {
+						fresh = true
+					}
+				}
+				if !fresh {
+					res = "false"
+				}
+			}
+			return true
+		})
+		if nret == 0 {
+			res = ""
+		}
+		return false
+	})
+	return res
 }
